@@ -23,8 +23,9 @@ EXTENDS Expr, Json, IOUtils
 
 Cases == JsonDeserialize(IOEnv.CASES)
 
-VARIABLES cid, store, phase, nsteps, pos, status, verdict
-vars == <<cid, store, phase, nsteps, pos, status, verdict>>
+VARIABLES cid, store, phase, nsteps, pos, status, verdict,
+          ccount    \* calls of the tagged user function so far, per tag (fault injection, C11)
+vars == <<cid, store, phase, nsteps, pos, status, verdict, ccount>>
 
 Method  == Cases[cid].method
 PNames  == Method.pnames               \* persistent names of the method, sorted by the harness
@@ -32,7 +33,7 @@ Traces  == Cases[cid].traces           \* sequence of [impl, events]
 Cap     == Cases[cid].cap              \* at most this many events were taken from each back end
 MaxSt   == Cases[cid].bound.max_steps  \* -1: none
 TEnd    == Cases[cid].bound.t_end      \* -1: none
-Fault   == Cases[cid].fault            \* <<site, occurrence>> of the user-function call that raises; <<0, 0>>: none
+Fault   == Cases[cid].fault            \* <<tag, occurrence>> of the call of <func>f(.., k=tag) that raises; <<0, 0>>: none
 
 PhaseRec(name) == Method.phases[CHOOSE k \in DOMAIN Method.phases : Method.phases[k].name = name]
 
@@ -77,53 +78,103 @@ Halt(acc, o) == [acc EXCEPT !.out = o]
 
 Structural == {"if", "endif", "else", "endelse", "fresh"}
 
+\* ---- fault analysis (C11) --------------------------------------------------------------
+\* After the scripted call has raised (acc.hit), the body is still walked in written order with the
+\* values the call would have produced, but only to find out which assignments do NOT depend on the
+\* failed call (data flow through acc.taint, control flow through acc.staint): those are the values
+\* a persistent variable may hold afterwards (acc.cands), besides its value from before the step.
+Tainted(acc, V) == V \cap acc.taint # {}
+GuardTainted(acc) == \E j \in DOMAIN acc.staint : acc.staint[j]
+
 \* block structure: executed whether or not the enclosing blocks are active
 ExecStructural(c, acc) ==
     CASE c.op = "if" ->
-            IF ~Active(acc) THEN [acc EXCEPT !.stack = Append(@, FALSE), !.flags = Append(@, FALSE)]
+            IF ~Active(acc) THEN [acc EXCEPT !.stack = Append(@, FALSE), !.flags = Append(@, FALSE),
+                                             !.staint = Append(@, Tainted(acc, Vars(c.c))),
+                                             !.ftaint = Append(@, Tainted(acc, Vars(c.c)))]
             ELSE LET v == Eval(c.c, acc.st) IN
-                   IF IsB(v) THEN [acc EXCEPT !.stack = Append(@, v[2]), !.flags = Append(@, v[2])]
+                   IF IsB(v) THEN [acc EXCEPT !.stack = Append(@, v[2]), !.flags = Append(@, v[2]),
+                                              !.staint = Append(@, Tainted(acc, Vars(c.c))),
+                                              !.ftaint = Append(@, Tainted(acc, Vars(c.c)))]
                    ELSE Halt(acc, "oof")
       [] c.op = "endif" ->
-            [acc EXCEPT !.lastIf = <<acc.flags[Len(acc.flags)]>>,
-                        !.stack = SubSeq(@, 1, Len(@) - 1), !.flags = SubSeq(@, 1, Len(@) - 1)]
+            [acc EXCEPT !.lastIf = <<acc.flags[Len(acc.flags)], acc.ftaint[Len(acc.ftaint)]>>,
+                        !.stack = SubSeq(@, 1, Len(@) - 1), !.flags = SubSeq(@, 1, Len(@) - 1),
+                        !.staint = SubSeq(@, 1, Len(@) - 1), !.ftaint = SubSeq(@, 1, Len(@) - 1)]
       [] c.op = "else" ->
             IF acc.lastIf = <<>> THEN Halt(acc, "oof")
-            ELSE [acc EXCEPT !.stack = Append(@, ~acc.lastIf[1]), !.flags = Append(@, FALSE)]
+            ELSE [acc EXCEPT !.stack = Append(@, ~acc.lastIf[1]), !.flags = Append(@, FALSE),
+                             !.staint = Append(@, acc.lastIf[2]), !.ftaint = Append(@, FALSE)]
       [] c.op = "endelse" ->
-            [acc EXCEPT !.lastIf = <<>>, !.stack = SubSeq(@, 1, Len(@) - 1), !.flags = SubSeq(@, 1, Len(@) - 1)]
+            [acc EXCEPT !.lastIf = <<>>, !.stack = SubSeq(@, 1, Len(@) - 1), !.flags = SubSeq(@, 1, Len(@) - 1),
+                        !.staint = SubSeq(@, 1, Len(@) - 1), !.ftaint = SubSeq(@, 1, Len(@) - 1)]
       [] c.op = "fresh" -> acc
+
+AssignReads(c) ==
+    Vars(c.rhs) \cup VarsOfSeq(c.sub, 1)
+    \cup UNION {Vars(c.loops[k][2]) \cup Vars(c.loops[k][3]) : k \in DOMAIN c.loops}
+    \cup (IF c.sub # <<>> \/ c.loops # <<>> THEN {c.lhs} ELSE {})
+
+\* book-keeping of an assignment to `names` (new values already in st2) for the fault analysis
+Track(acc, st2, names, reads) ==
+    LET t == GuardTainted(acc) \/ Tainted(acc, reads) IN
+      [acc EXCEPT !.st = st2,
+                  !.taint = IF t THEN @ \cup names ELSE @ \ names,
+                  !.cands = IF t \/ acc.closed THEN @
+                            ELSE @ \cup {<<n, st2[n]>> : n \in {x \in names : IsPersistent(x)}}]
 
 \* a statement inside active blocks
 ExecStatement(c, acc) ==
     CASE c.op = "assign" ->
             LET r == LoopExec(c, 1, acc.st) IN
-              IF r.ok THEN [acc EXCEPT !.st = Del(r.s, LoopIdents(c))] ELSE Halt(acc, "oof")
+              IF r.ok THEN Track(acc, Del(r.s, LoopIdents(c)), {c.lhs}, AssignReads(c)) ELSE Halt(acc, "oof")
       [] c.op = "acall" ->
-            LET args == EvalSeq(c.args, acc.st, 1)  kw == EvalKw(c.kw, acc.st, 1) IN
+            LET args == EvalSeq(c.args, acc.st, 1)  kw == EvalKw(c.kw, acc.st, 1)
+                tag  == IF c.f = "<func>f" /\ IsI(KwGet(kw, "k", I(0))) THEN KwGet(kw, "k", I(0))[2] ELSE 0
+                n    == IF tag \in DOMAIN acc.cc THEN acc.cc[tag] + 1 ELSE 1
+                acc1 == IF tag = 0 THEN acc ELSE [acc EXCEPT !.cc = [x \in DOMAIN @ \cup {tag} |-> IF x = tag THEN n ELSE @[x]]]
+                names == {c.lhs[k] : k \in DOMAIN c.lhs}
+                reads == VarsOfSeq(c.args, 1) \cup VarsOfKw(c.kw, 1)
+            IN
               IF (\E k \in DOMAIN args : args[k] = U) \/ (\E k \in DOMAIN kw : kw[k][2] = U) THEN Halt(acc, "oof")
-              ELSE LET v == Apply(c.f, args, kw) IN
-                     IF v = U THEN Halt(acc, "oof")
-                     ELSE IF Len(c.lhs) = 1 /\ v[1] # "t" THEN [acc EXCEPT !.st = Put(@, c.lhs[1], v)]
-                     ELSE IF v[1] = "t" /\ Len(c.lhs) = Len(v[2])
-                          THEN [acc EXCEPT !.st = [x \in DOMAIN @ \cup {c.lhs[k] : k \in DOMAIN c.lhs} |->
-                                    IF \E k \in DOMAIN c.lhs : c.lhs[k] = x
-                                    THEN v[2][CHOOSE k \in DOMAIN c.lhs : c.lhs[k] = x /\ \A m \in DOMAIN c.lhs : c.lhs[m] = x => m <= k]
-                                    ELSE @[x]]]
-                          ELSE Halt(acc, "oof")
+              ELSE LET v == Apply(c.f, args, kw)
+                       st2 == IF v = U THEN acc.st
+                              ELSE IF Len(c.lhs) = 1 /\ v[1] # "t" THEN Put(acc.st, c.lhs[1], v)
+                              ELSE IF v[1] = "t" /\ Len(c.lhs) = Len(v[2])
+                                   THEN [x \in DOMAIN acc.st \cup names |->
+                                           IF x \in names
+                                           THEN v[2][CHOOSE k \in DOMAIN c.lhs : c.lhs[k] = x /\ \A m \in DOMAIN c.lhs : c.lhs[m] = x => m <= k]
+                                           ELSE acc.st[x]]
+                                   ELSE acc.st
+                       okshape == v # U /\ ((Len(c.lhs) = 1 /\ v[1] # "t") \/ (v[1] = "t" /\ Len(c.lhs) = Len(v[2])))
+                   IN IF ~okshape THEN Halt(acc, "oof")
+                      ELSE IF tag # 0 /\ ~acc.hit /\ <<tag, n>> = Fault
+                           THEN \* this call raises: its targets depend on it, nothing is assigned for sure
+                                [acc1 EXCEPT !.hit = TRUE, !.st = st2, !.taint = @ \cup names]
+                           ELSE Track(acc1, st2, names, reads)
       [] c.op = "yield" ->
-            LET v == Eval(c.e, acc.st)  t == Eval(c.time, acc.st) IN
-              IF v = U \/ t = U \/ v[1] = "t" THEN Halt(acc, "oof")
-              ELSE [acc EXCEPT !.evs = Append(@, <<"yield", t, c.tid, c.comp, v>>)]
+            IF acc.hit THEN [acc EXCEPT !.closed = TRUE]       \* fenced behind the failed call: never ran
+            ELSE LET v == Eval(c.e, acc.st)  t == Eval(c.time, acc.st) IN
+                   IF v = U \/ t = U \/ v[1] = "t" THEN Halt(acc, "oof")
+                   ELSE [acc EXCEPT !.evs = Append(@, <<"yield", t, c.tid, c.comp, v>>)]
+      [] acc.hit /\ c.op \in {"fail", "raise", "switch", "restart"} -> [acc EXCEPT !.closed = TRUE]
       [] c.op = "fail"    -> Halt(acc, "failed")
       [] c.op = "raise"   -> [Halt(acc, "raise") EXCEPT !.kind = c.kind]
       [] c.op = "switch"  -> [Halt(acc, "switch") EXCEPT !.target = c.to]
       [] c.op = "restart" -> [Halt(acc, "switch") EXCEPT !.target = acc.self]
       [] OTHER -> Halt(acc, "oof")
 
+\* after the failed call a statement whose guard is false still is a barrier if it is a non-assignment
+Barrier(c) == c.op \in {"yield", "fail", "raise", "switch", "restart"}
+
 ExecCall(c, acc) ==
     IF c.op \in Structural THEN ExecStructural(c, acc)
-    ELSE IF ~Active(acc) THEN acc
+    ELSE IF ~Active(acc)
+         THEN (IF acc.hit /\ Barrier(c) THEN [acc EXCEPT !.closed = TRUE]
+               ELSE IF acc.hit /\ GuardTainted(acc) /\ c.op \in {"assign", "acall"}
+                    THEN \* might have run had the call succeeded: its targets are uncertain
+                         [acc EXCEPT !.taint = @ \cup (IF c.op = "assign" THEN {c.lhs} ELSE {c.lhs[k] : k \in DOMAIN c.lhs})]
+                    ELSE acc)
     ELSE ExecStatement(c, acc)
 
 RECURSIVE Body(_, _, _)
@@ -131,9 +182,12 @@ Body(calls, k, acc) ==
     IF k > Len(calls) \/ acc.out # "go" THEN acc
     ELSE Body(calls, k + 1, ExecCall(calls[k], acc))
 
-RunBody(ph, st) ==
-    Body(ph.calls, 1, [st |-> st, evs |-> <<>>, stack |-> <<>>, flags |-> <<>>, lastIf |-> <<>>,
-                       out |-> "go", target |-> "", kind |-> "", self |-> ph.name])
+RunBody(ph, st, cc) ==
+    LET r == Body(ph.calls, 1, [st |-> st, evs |-> <<>>, stack |-> <<>>, flags |-> <<>>, lastIf |-> <<>>,
+                                out |-> "go", target |-> "", kind |-> "", self |-> ph.name,
+                                cc |-> cc, hit |-> FALSE, closed |-> FALSE, taint |-> {}, staint |-> <<>>,
+                                ftaint |-> <<>>, cands |-> {}])
+    IN IF r.hit /\ r.out # "oof" THEN [r EXCEPT !.out = "userexc"] ELSE r
 
 ----------------------------------------------------------------------------
 InitStore == [v \in {Cases[cid].input[k][1] : k \in DOMAIN Cases[cid].input} |->
@@ -144,7 +198,7 @@ Init ==
     /\ store = [v \in {Cases[cid].input[k][1] : k \in DOMAIN Cases[cid].input} |->
                   Cases[cid].input[CHOOSE k \in DOMAIN Cases[cid].input : Cases[cid].input[k][1] = v][2]]
     /\ phase = Cases[cid].method.initial
-    /\ nsteps = 0 /\ pos = 1 /\ status = "run" /\ verdict = <<>>
+    /\ nsteps = 0 /\ pos = 1 /\ status = "run" /\ verdict = <<>> /\ ccount = <<>>
 
 TimeVal == IF "<t>" \in DOMAIN store THEN store["<t>"] ELSE U
 StopNow == \/ (TEnd # -1 /\ IsI(TimeVal) /\ TimeVal[2] >= TEnd)
@@ -153,7 +207,7 @@ StopNow == \/ (TEnd # -1 /\ IsI(TimeVal) /\ TimeVal[2] >= TEnd)
 \* events the reference produces in this iteration of the run loop
 StepResult ==
     LET ph  == PhaseRec(phase)
-        r   == RunBody(ph, store)
+        r   == RunBody(ph, store, ccount)
         nxt == IF r.out = "switch" THEN r.target ELSE ph.next
         st2 == Persist(r.st)
         dtv == IF "<dt>" \in DOMAIN r.st THEN r.st["<dt>"] ELSE None
@@ -162,7 +216,8 @@ StepResult ==
                    [] r.out = "failed" -> <<"fail", tv, ph.next, PersSnapshot(st2)>>
                    [] r.out = "raise"  -> <<"raise", r.kind, PersSnapshot(st2)>>
                    [] OTHER -> <<"oof">>
-    IN [evs |-> Append(r.evs, endev), out |-> r.out, st |-> st2, next |-> nxt]
+    IN [evs |-> IF r.out = "userexc" THEN r.evs ELSE Append(r.evs, endev), out |-> r.out, st |-> st2,
+        next |-> nxt, cc |-> r.cc, cands |-> r.cands, dflt |-> ph.next]
 
 \* compare expected events with every recorded trace from position pos on (up to Cap)
 Ev(m, p) == IF p <= Len(Traces[m].events) THEN Traces[m].events[p] ELSE <<"<no more events>">>
@@ -171,19 +226,42 @@ Mismatch(exp) ==
 FirstMismatch(exp) ==
     LET MM == Mismatch(exp) IN CHOOSE x \in MM : \A y \in MM : x[2] <= y[2]
 
+\* C11: what the contract says about the event recorded when the injected exception reached the
+\* caller: <<"userexc", same object, temporaries still visible, next phase, persistent values>>
+Pre(name) == IF name \in DOMAIN store THEN store[name] ELSE None
+FaultClause(e, r) ==
+    IF e[1] # "userexc" THEN "ExceptionReachesCaller"
+    ELSE IF ~e[2] THEN "SameException"
+    ELSE IF e[3] # <<>> THEN "NoTemporaries"
+    ELSE IF e[4] # r.dflt THEN "NextPhase"
+    ELSE IF \E k \in DOMAIN e[5] : e[5][k][2] # Pre(e[5][k][1]) /\ <<e[5][k][1], e[5][k][2]>> \notin r.cands
+         THEN "AllowedValue"
+    ELSE "ok"
+
 Step ==
     /\ status = "run" /\ ~StopNow /\ pos <= Cap
     /\ (IF TEnd = -1 THEN TRUE ELSE IsI(TimeVal))
     /\ LET r == StepResult IN
          IF r.out = "oof"
-         THEN /\ status' = "dropped" /\ UNCHANGED <<store, phase, nsteps, pos, verdict>>
+         THEN /\ status' = "dropped" /\ UNCHANGED <<store, phase, nsteps, pos, verdict, ccount>>
          ELSE IF Mismatch(r.evs) # {}
          THEN LET x == FirstMismatch(r.evs) IN
                 /\ status' = "bad"
                 /\ verdict' = <<Traces[x[1]].impl, pos + x[2] - 1, r.evs[x[2]][1], Ev(x[1], pos + x[2] - 1)[1]>>
-                /\ UNCHANGED <<store, phase, nsteps, pos>>
+                /\ UNCHANGED <<store, phase, nsteps, pos, ccount>>
+         ELSE IF r.out = "userexc"
+         THEN LET p2 == pos + Len(r.evs)
+                  badm == {m \in DOMAIN Traces : FaultClause(Ev(m, p2), r) # "ok" \/ Len(Traces[m].events) # p2}
+              IN IF badm = {}
+                 THEN /\ status' = "accepted" /\ pos' = p2 + 1
+                      /\ UNCHANGED <<store, phase, nsteps, verdict, ccount>>
+                 ELSE LET m == CHOOSE x \in badm : TRUE IN
+                        /\ status' = "bad"
+                        /\ verdict' = <<Traces[m].impl, p2, FaultClause(Ev(m, p2), r), Ev(m, p2)[1]>>
+                        /\ UNCHANGED <<store, phase, nsteps, pos, ccount>>
          ELSE /\ store' = r.st
               /\ phase' = r.next
+              /\ ccount' = r.cc
               /\ nsteps' = IF r.out \in {"go", "switch"} THEN nsteps + 1 ELSE nsteps
               /\ pos' = pos + Len(r.evs)
               /\ status' = IF r.out = "raise" THEN "ended" ELSE "run"
@@ -198,7 +276,7 @@ Finish ==
          IF extra = {} THEN status' = "accepted" /\ verdict' = verdict
          ELSE /\ status' = "bad"
               /\ verdict' = <<Traces[CHOOSE m \in extra : TRUE].impl, pos, "<run ends>", Ev(CHOOSE m \in extra : TRUE, pos)[1]>>
-    /\ UNCHANGED <<cid, store, phase, nsteps, pos>>
+    /\ UNCHANGED <<cid, store, phase, nsteps, pos, ccount>>
 
 Next == Step \/ Finish
 
@@ -206,7 +284,8 @@ Spec == Init /\ [][Next]_vars
 
 ----------------------------------------------------------------------------
 \* properties of the reference itself (checked on every state)
-OnlyPersistentSurvives == (pos = 1) \/ (\A v \in DOMAIN store : IsPersistent(v))
+InputNames == {Cases[cid].input[k][1] : k \in DOMAIN Cases[cid].input}
+OnlyPersistentSurvives == (pos = 1) \/ (\A v \in DOMAIN store : IsPersistent(v) \/ v \in InputNames)
 PhaseExists == \E k \in DOMAIN Method.phases : Method.phases[k].name = phase
 StepsCounted == MaxSt = -1 \/ nsteps <= MaxSt
 
